@@ -1,10 +1,10 @@
 """Configuration of ./check C12 (see lib/registry.py for the fields)."""
 CFG = dict(
-    claim="Theorems C12_no_crash, C12_never_stalls (Q), C12_dispatch_sound, C12_dispatch_unary, C12_dispatch_complete (Q), C12_dispatch_stream, C12_reset, C12_probe (Q) in coq/Props/C12.v, over all label sequences of the "
+    claim="Theorems C12_no_crash, C12_never_stalls (Q), C12_dispatch_sound, C12_dispatch_unary, C12_dispatch_complete (Q), C12_dispatch_stream, C12_reset, C12_reset_accounting, C12_reset_written (Q), C12_probe (Q) in coq/Props/C12.v, over all label sequences of the "
           "small-step model coq/Model/Server.v of one server connection (arbitrary peer, arbitrary handler behaviour, any "
           "interleaving); the model is run lock-step against the real goat.Server.Serve on every run.",
     props="Props/C12.v",
-    theorems=["C12_no_crash", "C12_never_stalls", "C12_dispatch_sound", "C12_dispatch_unary", "C12_dispatch_complete", "C12_dispatch_stream", "C12_reset", "C12_probe"],
+    theorems=["C12_no_crash", "C12_never_stalls", "C12_dispatch_sound", "C12_dispatch_unary", "C12_dispatch_complete", "C12_dispatch_stream", "C12_reset", "C12_reset_accounting", "C12_reset_written", "C12_probe"],
     imports=["Model.Method", "Model.Client", "Model.Server", "Check.ServerC", "Check.C12c"],
     case_type="c12case",
     find_bad_from="find_bad_from",
